@@ -94,6 +94,9 @@ pub struct State {
     /// BEFORE it performs the access (k = 0: every time, up to max_stalls)
     pub stall_at: Option<(String, u32, u32, u32, u64)>,
     pub stall_at_hits: u32,
+    /// a second, independent site-directed preemption (MAYV_STALL_AT2): interleavings that need two threads held
+    pub stall_at2: Option<(String, u32, u32, u32, u64)>,
+    pub stall_at2_hits: u32,
 }
 
 pub struct Ctl {
@@ -415,6 +418,22 @@ impl Hooks for Ctl {
                 return;
             }
         }
+        let mut directed2 = false;
+        if let Some((f, l, c, _, _)) = &g.stall_at2 {
+            directed2 = loc.line() == *l && loc.column() == *c && loc.file().ends_with(f.as_str());
+        }
+        if directed2 {
+            g.stall_at2_hits += 1;
+            let (k, ns) = g.stall_at2.as_ref().map(|x| (x.3, x.4)).unwrap_or((1, 0));
+            if g.stall_at2_hits == k {
+                g.stalls += 1;
+                let d = g.now + ns;
+                g.threads[me].st = TS::Blocked { key: STALL_KEY + me, deadline: Some(d) };
+                g.threads[me].woken = false;
+                drop(self.switch(g, me));
+                return;
+            }
+        }
         // preemption: the OS takes the CPU away from this thread for some (virtual) time
         if g.stall_n > 0 && g.stalls < g.max_stalls && g.next_rand() % g.stall_n == 0 {
             g.stalls += 1;
@@ -661,6 +680,7 @@ pub struct Config {
     pub stall_ns: Vec<u64>,
     pub max_stalls: u32,
     pub stall_at: Option<(String, u32, u32, u32, u64)>,
+    pub stall_at2: Option<(String, u32, u32, u32, u64)>,
 }
 
 impl Config {
@@ -704,6 +724,19 @@ impl Config {
             stall_ns: stall.1,
             max_stalls: std::env::var("MAYV_MAX_STALLS").ok().and_then(|s| s.parse().ok()).unwrap_or(3),
             // MAYV_STALL_AT=file-suffix:line:col:k[:ns]
+            stall_at2: std::env::var("MAYV_STALL_AT2").ok().and_then(|s| {
+                let p: Vec<&str> = s.split(':').collect();
+                if p.len() < 4 {
+                    return None;
+                }
+                Some((
+                    p[0].to_string(),
+                    p[1].parse().ok()?,
+                    p[2].parse().ok()?,
+                    p[3].parse().ok()?,
+                    p.get(4).and_then(|x| x.parse().ok()).unwrap_or(30_000_000),
+                ))
+            }),
             stall_at: std::env::var("MAYV_STALL_AT").ok().and_then(|s| {
                 let p: Vec<&str> = s.split(':').collect();
                 if p.len() < 4 {
@@ -847,6 +880,8 @@ pub fn run(cfg: Config, body: impl FnOnce(&Ctx)) -> ! {
         max_stalls: cfg.max_stalls,
         stall_at: cfg.stall_at.clone(),
         stall_at_hits: 0,
+        stall_at2: cfg.stall_at2.clone(),
+        stall_at2_hits: 0,
     };
     for _ in 0..8 {
         st.next_rand();
